@@ -76,6 +76,13 @@ def c02_1(ctx):
         fn = ctx.repo.fn('_dictable:dictable.%s' % name)
         loops = cursor_loops(fn)
         if not loops:
+            hashed = [x for x in ast.walk(fn.node) if isinstance(x, ast.Compare) and isinstance(x.ops[0], (ast.In, ast.NotIn))
+                      and ((isinstance(x.comparators[0], ast.Call) and call_name(x.comparators[0]) in ('set', 'dict', 'frozenset')) or any(isinstance(c_, ast.Call) and call_name(c_) in ('set', 'dict', 'frozenset') for s_ in ast.walk(fn.node) if isinstance(s_, ast.Assign) and U(s_.targets[0]) == U(x.comparators[0]) for c_ in [s_.value]))]
+            if hashed:
+                ctx.count(1, fn.where(hashed[0]))
+                ctx.fail(fn, hashed[0], 'dictable.%s decides which keys match by hashing (`%s`): equality of keys is defined by cmp (NaN equals NaN whatever the object, 1 equals 1.0, as in the sorted merge of its sibling), a set lookup uses ==/hash and puts such rows on both sides of the partition' % (name, U(hashed[0])),
+                         witness="keys float('nan') read twice from a DataFrame")
+                continue
             raise AnalysisError('no cursor merge loop found in dictable.%s' % name)
         for loop in loops:
             n += 1
